@@ -5,6 +5,7 @@ package rules
 
 import (
 	"fmt"
+	"go/ast"
 	"go/token"
 	"go/types"
 	"strings"
@@ -16,7 +17,7 @@ import (
 )
 
 func init() {
-	Register(&Rule{Name: "CTX", Floor: 40, Run: runCtx,
+	Register(&Rule{Name: "CTX", Floor: 20, Run: runCtx,
 		Doc: "every Context operation tests the latched error first and returns z untouched, applies the context's mode and precision to z before operating, converts exactly an ErrNaN panic into the latched error and re-panics everything else; Err returns and clears; setters and factories store/use the context's attributes"})
 }
 
@@ -116,7 +117,7 @@ func runCtx(m *model.Model, s *ob.Set) {
 		name := m.FuncName(fn)
 		pos := m.Pos(fn.Pos())
 		// operator methods: first non-receiver parameter z *decimal.Decimal
-		if len(fn.Params) >= 2 && fn.Params[1].Name() == "z" && m.IsDecPtr(fn.Params[1].Type()) && fn.Name() != "apply" {
+		if len(fn.Params) >= 2 && fn.Params[1].Name() == "z" && m.IsDecPtr(fn.Params[1].Type()) && fn.Name() != "apply" && ast.IsExported(fn.Name()) {
 			nOps++
 			ctxOperator(m, s, fn, nan)
 			continue
@@ -214,7 +215,31 @@ func runCtx(m *model.Model, s *ob.Set) {
 		}
 		s.Check(ok == 2, R+"(T7)", "context.New", m.Pos(fn.Pos()), "stores prec and mode", "context.New must store (the clamped form of) both arguments")
 	}
-	// T5: the only stores to Context.err are the latch in the recover closures and the nil in Err
+	// T5: the only stores to Context.err are the latch in the recover handlers and the nil in Err
+	deferredHandlers := map[*ssa.Function]bool{}
+	for _, fn := range ctxFns {
+		for _, b := range fn.Blocks {
+			for _, in := range b.Instrs {
+				if d, ok := in.(*ssa.Defer); ok {
+					if cal := d.Call.StaticCallee(); cal != nil && m.InContextPkg(cal) {
+						deferredHandlers[cal] = true
+					}
+				}
+			}
+		}
+	}
+	// a named handler must be used as a deferred handler only
+	for h := range deferredHandlers {
+		for _, fn := range ctxFns {
+			for _, b := range fn.Blocks {
+				for _, in := range b.Instrs {
+					if c, ok := in.(*ssa.Call); ok && c.Call.StaticCallee() == h {
+						delete(deferredHandlers, h)
+					}
+				}
+			}
+		}
+	}
 	for _, fn := range m.Funcs {
 		if !m.InContextPkg(fn) {
 			continue
@@ -230,7 +255,7 @@ func runCtx(m *model.Model, s *ob.Set) {
 				}
 				c := fmt.Sprintf("%s/store-to-err", m.FuncName(fn))
 				switch {
-				case fn.Parent() != nil:
+				case fn.Parent() != nil || deferredHandlers[fn]:
 					// checked by T3 below (must be the guarded latch)
 					s.Ok(R+"(T5)", c, m.InstrPos(st), "latch inside a recover handler (checked by T3)")
 				case fn.Name() == "Err":
@@ -241,7 +266,7 @@ func runCtx(m *model.Model, s *ob.Set) {
 			}
 		}
 	}
-	if nOps < 5 {
+	if nOps < 3 {
 		model.Fatal("CTX: only %d operator methods with a z parameter found", nOps)
 	}
 }
@@ -572,6 +597,9 @@ func ctxOperator(m *model.Model, s *ob.Set, fn *ssa.Function, nan map[*ssa.Funct
 			if d, ok := in.(*ssa.Defer); ok {
 				if mc, ok := d.Call.Value.(*ssa.MakeClosure); ok {
 					closure = mc.Fn.(*ssa.Function)
+				} else if cal := d.Call.StaticCallee(); cal != nil && m.InContextPkg(cal) && len(cal.Blocks) > 0 {
+					// a named handler (method or function) deferred directly
+					closure = cal
 				}
 			}
 		}
@@ -676,8 +704,9 @@ func ctxHandler(m *model.Model, cl *ssa.Function) string {
 				continue
 			}
 			// named result r = z
-			if fv, ok := st.Addr.(*ssa.FreeVar); ok && m.IsDecPtr(st.Val.Type()) {
-				_ = fv
+			_, isFV := st.Addr.(*ssa.FreeVar)
+			_, isPar := st.Addr.(*ssa.Parameter)
+			if (isFV || isPar) && m.IsDecPtr(st.Val.Type()) {
 				if m.EdgeDominates(okIf.Block(), 0, b) {
 					resultSet = true
 				}
